@@ -27,6 +27,8 @@ Lemma sound_fail {A} : sound (@failM A).
 Proof. intros s ts H. exact I. Qed.
 Lemma sound_oob {A} c : sound (@oobM A c).
 Proof. intros s ts H. exact I. Qed.
+Lemma sound_desyncM {A} c : sound (@desyncM A c).
+Proof. intros s ts _. exact I. Qed.
 Lemma sound_const {A} (r : res A) : match r with Ok _ _ _ => False | _ => True end -> sound (fun _ _ => r).
 Proof. intros Hr s ts H. destruct r; auto. contradiction. Qed.
 Lemma sound_get : sound get_st.
@@ -232,7 +234,7 @@ Ltac snd_step :=
       | |- sound (match ?x with _ => _ end) => destruct x
       | |- sound (let '(_, _) := ?x in _) => destruct x
       | |- sound (fun _ _ => More) => apply sound_const; exact I
-      | |- sound (fun _ _ => Desync) => apply sound_const; exact I
+      | |- sound (desyncM _) => apply sound_desyncM
       | |- sound (fun _ _ => Fail) => apply sound_const; exact I
       | |- sound (fun _ _ => Oob _) => apply sound_const; exact I
       end ].
